@@ -61,6 +61,13 @@ CHECKS = {
  "C18": dict(cat="exploration", technique="property-based testing (Hypothesis): read-back/concatenation/equality oracles over generated documents and generated schema-violating edits",
    text="Generated schema-valid documents (evolved models, schema-directed mutations) are loaded and read back generically; merges compared with list concatenation; structural single edits must compare unequal and comparisons never raise; schema-violating single edits x 4 plugins x position must fail before any plugin runs and write nothing (spy + real CLI sample).",
    note="schema-valid = valid against the MetaModel definition; annotation-only edits are not required to be unequal", ref="3/C18"),
+
+ "C16": dict(cat="exploration", technique="stateful property-based testing (Hypothesis RuleBasedStateMachine) over output-directory histories x hash seeds",
+   text="Per plugin a state machine runs the real generator CLI repeatedly into one directory with generated model lists, hash seeds and planted stale files; after every run the digest map of the plugin-owned files must equal the fresh-directory reference computed in another process under another hash seed.",
+   note="owned-file patterns as listed in the evidence; slow plugins use reduced closed sub-models in the quick tier", ref="3/C16"),
+ "C19": dict(cat="exploration", technique="harness-owned thread scheduler (sys.settrace yield points, Hypothesis-generated schedules, forked pristine children) + stateful creation histories",
+   text="First-use concurrency is explored under a deterministic scheduler that owns the interleaving at line granularity inside the forward-reference resolution; creation histories over fresh/user-supplied converters are checked by a rule-based state machine against a battery; thorough adds real-thread trials.",
+   note="switches inside C code are not controlled; outcomes compared as raised/JSON, not exception types; time-outs are inconclusive", ref="3/C19"),
 }
 
 def main():
@@ -78,7 +85,7 @@ def main():
             "technique": c["technique"],
         })
     props = [json.loads(l)["id"] for l in open(os.path.join(HERE, "properties.jsonl"))]
-    na = [{"property_id": p, "reason": "check not built yet in this round (planned, see DESIGN.md section 9)"} for p in props if p not in CHECKS]
+    na = [{"property_id": p, "reason": "no check registered"} for p in props if p not in CHECKS]
     man = {
         "version": 1,
         "setup_cmd": "./setup.sh",
